@@ -6,7 +6,7 @@ CONSTANTS
   Dests <- MCDests
   Txs <- MCTxs
   Ticks <- MCTicks
-  MaxTicks = 3
-  MaxObj = 4
+  MaxTicks = 2
+  MaxObj = 3
 CONSTRAINT Bound
 INVARIANTS Reach_UdpChurn
